@@ -13,3 +13,4 @@ import NostrRelay.Props.C12
 import NostrRelay.Props.C11
 import NostrRelay.Props.KVScan
 import NostrRelay.Props.C09
+import NostrRelay.Props.C08
